@@ -3,6 +3,7 @@ CONSTANTS N = 0
           NMin = 0
           Adj = {}
           D0 = 1000000
+          Rule = "eth"
           Family = "shortheavy-sample"
           LA = 10
           LB = 8
